@@ -16,6 +16,8 @@ A_CAP = 'A-CAP: 2*capacity() <= usize::MAX; A-HB-CAP: cap_for(n) >= n and cap_fo
 A_ARITH = 'machine arithmetic: exact usize semantics in exec code (overflow obligations proved, not assumed); spec arithmetic is mathematical'
 A_UNSAFE = 'unsafe code: all raw-pointer code is outside Verus; in Kani it is executed symbolically within the stated bounds'
 A_MODEL = 'ptr_ent/at are uninterpreted functions of pointer values: sound while the designated entry is not modified and the table not reallocated between production and use (true in L2 by inspection; exercised by sub_* harnesses)'
+A_NODE = 'A-NODE: the Verus proofs of retain and clone walk the list through the ghost address sequence table.nodes() and the assumed contract of LruCache::at (R11: stands for EntryPtr::get on a pointer of this cache): an entry keeps its address while it stays in an un-rebuilt table, prev/next of node i are nodes i+1 / i-1 with the seal closing the cycle, and a read through a reference obtained before a removal still yields the link stored then (retain reads entry.prev after remove_entry); these are checked only boundedly (Kani: coherent walker, addrs() comparison in sub_remove_entry, op_retain, op_clone)'
+A_CLONE = 'user Clone on K, V, S: only vstd\'s `cloned(a, b)` relation is assumed of a clone; that a cloned key is Eq-equal to its original (needed for later lookups in the clone) is NOT assumed and not proved -- the clone\'s key set is decided by the bounded Kani harnesses only'
 A_KBOUND = 'Kani bounds: <= 3 entries, table capacity <= 4 (MAXCAP), unwind 6-7, one L1 function or one V-unreachable operation per harness; u8 keys; identity or constant hasher'
 
 PROPS = {
@@ -55,7 +57,7 @@ PROPS = {
     'C06': dict(
         title='drop / hand back exactly once', level='model_checking', templates=['l2', 'iter'],
         k_quick=['q_ledger_remove', 'q_ledger_retain', 'q_ledger_clear_drop', 'q_ledger_clear_mixed', 'q_ledger_realloc', 'q_ledger_clone',
-                 'q_ledger_drain', 'q_ledger_into_iter'],
+                 'q_ledger_drain', 'q_ledger_into_iter', 'q_ledger_owning_mixed'],
         k_thorough=[],
         assumptions=[A_DOUBLE, A_HB, A_UNSAFE, A_KBOUND,
                      'composite L2 operations: Verus shows every departing entry passes through remove_metadata and is then returned or dropped by safe code (clauses tagged C06); exactly-once for safe code is rustc ownership'],
@@ -70,14 +72,14 @@ PROPS = {
         design='DESIGN.md §5 C07'),
     'C08': dict(
         title='size estimation compositional / bulk helpers / total', level='model_checking', templates=['memsize'],
-        k_quick=['q_ms_compose_scalar', 'q_ms_vec_string', 'q_ms_bulk_tuple_box', 'q_ms_array_flat', 'q_ms_wrappers', 'q_ms_seq_option_result'],
+        k_quick=['q_ms_compose_scalar', 'q_ms_vec_string', 'q_ms_bulk_tuple_box', 'q_ms_array_flat', 'q_ms_wrappers', 'q_ms_seq_option_result', 'q_ms_any_hint'],
         k_thorough=['t_ms_nested'],
         assumptions=['shapes outside the listed harnesses are not covered', 'stack depth is decided only through the non-recursion obligation of SizedArrayFlatIterator::next (Verus termination checker)',
                      'A-STD: std containers report capacity()/len() truthfully'],
         design='DESIGN.md §5 C08'),
     'C09': dict(
         title='heap_size = allocator bytes (relative to std capacity contracts)', level='model_checking', templates=['memsize'],
-        k_quick=['q_ms_alloc_string', 'q_ms_alloc_vec', 'q_ms_alloc_pathbuf', 'q_ms_alloc_box', 'q_ms_alloc_nested', 'q_ms_vec_string', 'q_ms_wrappers', 'q_ms_bulk_tuple_box', 'q_ms_seq_option_result'],
+        k_quick=['q_ms_alloc_string', 'q_ms_alloc_vec', 'q_ms_alloc_pathbuf', 'q_ms_alloc_box', 'q_ms_alloc_nested', 'q_ms_alloc_binheap', 'q_ms_vec_string', 'q_ms_wrappers', 'q_ms_bulk_tuple_box', 'q_ms_seq_option_result'],
         k_thorough=['t_ms_alloc_osstring_cstring', 't_ms_nested'],
         assumptions=['A-STD: a Vec/BinaryHeap holds capacity()*size_of::<T>() bytes, String/OsString/PathBuf hold capacity() bytes, Box<T> holds size_of_val; the link to real allocator bytes is NOT checked by this technique'],
         design='DESIGN.md §5 C09'),
@@ -92,7 +94,7 @@ PROPS = {
         design='DESIGN.md §5 C11'),
     'C12': dict(
         title='iterators', level='proof', templates=['iter'],
-        k_quick=['q_iter_link', 'q_it_iter', 'q_it_keys_values', 'q_it_empty_single', 'q_drain', 'q_it_into_iter', 'q_it_into_keys_values', 'q_ledger_into_iter'],
+        k_quick=['q_iter_link', 'q_it_iter', 'q_it_keys_values', 'q_it_empty_single', 'q_drain', 'q_it_into_iter', 'q_it_into_keys_values', 'q_ledger_into_iter', 'q_ledger_owning_mixed'],
         k_thorough=['t_iter_link', 't_it_borrowing', 't_drain', 't_it_owning'],
         assumptions=[A_SUB, A_DOUBLE, A_UNSAFE, A_KBOUND,
                      'snap()/at() heap snapshot: the link structure is immutable while an iterator runs; that the real links satisfy linked() is Kani harness iter_link (bounded)',
@@ -107,15 +109,19 @@ PROPS = {
                      'whole-history growth bound is the inductive consequence of the per-call clause cap_after_growth < max(4*len, 8)'],
         design='DESIGN.md §5 C13'),
     'C14': dict(
-        title='clone', level='model_checking', templates=[],
+        title='clone', level='proof', templates=['l2'],
         k_quick=['q_op_clone', 'q_op_clone_small', 'q_op_clone_diverge_remove', 'q_op_clone_diverge_realloc', 'q_ledger_clone'],
         k_thorough=['t_op_clone', 't_op_clone_diverge_touch', 't_op_clone_diverge_clear', 't_op_clone_diverge_retain'],
-        assumptions=[A_DOUBLE, A_HB, A_UNSAFE, A_KBOUND], design='DESIGN.md §5 C14'),
+        assumptions=[A_SUB, A_NODE, A_CLONE, A_DOUBLE, A_HB, A_UNSAFE, A_KBOUND,
+                     'proved (Verus, unbounded, over A-SUB/A-NODE): same length, order, per-entry sizes, current_size, max_size, capacity >= source, every key/value a clone of the one at the same position, source untouched by type (&self); independence of later operations and Entry::clone itself: bounded Kani harnesses only'],
+        design='DESIGN.md §5 C14'),
     'C15': dict(
-        title='retain', level='model_checking', templates=[],
+        title='retain', level='proof', templates=['l2'],
         k_quick=['q_op_retain', 'q_op_retain_small', 'q_ledger_retain'],
         k_thorough=['t_op_retain'],
-        assumptions=[A_DOUBLE, A_HB, A_UNSAFE, A_KBOUND], design='DESIGN.md §5 C15'),
+        assumptions=[A_SUB, A_NODE, A_EQ, A_DOUBLE, A_HB, A_UNSAFE, A_KBOUND,
+                     'proved (Verus, unbounded, over A-SUB/A-NODE): there is one predicate result per original entry, taken on that entry\'s own key and value, such that the final list is exactly the accepted entries in their original order; acct (current_size = sum of recorded sizes, distinct keys) and exactness are preserved.  That the predicate is invoked exactly once per entry and in LRU->MRU order is visible in the verified loop structure but is not a stated obligation (Verus has no call log for FnMut): bounded Kani harnesses op_retain / ledger_retain decide it'],
+        design='DESIGN.md §5 C15'),
     'C16': dict(
         title='panic safety (call-back-point invariant)', level='model_checking', templates=['l2'],
         k_quick=['q_cb_try_reallocate', 'q_cb_lookup_remove', 'q_cb_remove_ends', 'q_cb_clone', 'q_cb_retain', 'q_cb_insert_untracked'],
@@ -126,7 +132,7 @@ PROPS = {
         design='DESIGN.md §5 C16'),
     'C17': dict(
         title='leaked iterators', level='model_checking', templates=['iter'],
-        k_quick=['q_forget_drain', 'q_forget_drain_first', 'q_forget_owning', 'q_forget_borrowing'],
+        k_quick=['q_forget_drain', 'q_forget_drain_first', 'q_forget_owning', 'q_forget_borrowing', 'q_forget_mixed'],
         k_thorough=[],
         assumptions=[A_DOUBLE, A_HB, A_UNSAFE, A_KBOUND], design='DESIGN.md §5 C17'),
     'C19': dict(
